@@ -127,6 +127,10 @@ func c06Run(c C06Case, limit int64) (*h.Obs, int, string) {
 		in.WriteString("MAIL FROM:<ok@a3.example>\r\nRCPT TO:<ok@b3.example>\r\nDATA\r\n")
 		_, w3 := dataMessage(int(c.N), false)
 		in.Write(w3)
+		// and a fourth, via DATA again, one line over the limit: the limit holds for every message of a connection
+		in.WriteString("MAIL FROM:<ok@a4.example>\r\nRCPT TO:<ok@b4.example>\r\nDATA\r\n")
+		_, w4 := dataMessage(int(c.N)+3, false)
+		in.Write(w4)
 		in.WriteString("NOOP\r\n")
 	}
 	var segs [][]byte
@@ -140,14 +144,32 @@ func c06Run(c C06Case, limit int64) (*h.Obs, int, string) {
 
 func obsDigest(o *h.Obs) string {
 	var sb strings.Builder
+	// the fourth transaction of the tail (see c06Run) is over the limit on purpose: it is judged by its 552, not by
+	// comparison with the unlimited server
+	fourth := -1
+	for i, e := range o.Trace {
+		if e.Kind == "Mail" && e.Arg == "ok@a4.example" {
+			fourth = i
+		}
+	}
+	nr := len(o.Replies)
+	if fourth >= 0 {
+		nr -= 5 // MAIL RCPT 354 final NOOP
+	}
 	for i, r := range o.Replies {
 		if i == 1 {
 			continue // the EHLO reply advertises the limit itself
 		}
+		if i >= nr {
+			break
+		}
 		sb.WriteString(r.String())
 		sb.WriteByte('|')
 	}
-	for _, e := range o.Trace {
+	for i, e := range o.Trace {
+		if fourth >= 0 && i >= fourth {
+			break
+		}
 		fmt.Fprintf(&sb, "%s(%s;%s;%q;%s;%s)", e.Kind, e.Arg, e.Opts, e.Body, e.ReadErr, e.Ret)
 	}
 	fmt.Fprintf(&sb, "closed=%v", o.Closed)
@@ -211,20 +233,34 @@ func evalC06(c C06Case) *h.Finding {
 		if a, b := obsDigest(o), obsDigest(ref); a != b {
 			return h.F("c06-within-limit-differs", "%s: a message within the limit is treated differently from the unlimited server.\n   limited:   %s\n   unlimited: %s\n   input %q", desc, a, b, in)
 		}
+		if c.Kind != "size" && c.Kind != "sizebig" && c.N >= 2 && c.N <= 100 {
+			// the over-limit message at the end of the conversation
+			if n := len(o.Replies); n < 2 || o.Replies[n-2].Code != 552 {
+				return h.F("c06-second-transaction", "%s: the last message of the connection (DATA, 3 octets over the limit, after messages within it) was answered %s, want 552", desc, o.Codes())
+			}
+			for _, e := range o.Trace {
+				if (e.Kind == "Data" || e.Kind == "LMTPData") && e.From == "ok@a4.example" && (int64(len(e.Body)) > c.N || e.ReadErr == "EOF") {
+					return h.F("c06-backend-read-too-much", "%s: the last message of the connection (over the limit) reached the backend as %d octets (%s)", desc, len(e.Body), e.ReadErr)
+				}
+			}
+		}
 		return nil
 	}
 	codes := o.Codes()
 	// the second transaction (see c06Run): RSET MAIL RCPT [DATA 354] final NOOP, all positive
 	if c.Kind != "size" && c.Kind != "sizebig" && c.N >= 2 && c.N <= 100 {
-		nTail := 10 // RSET MAIL RCPT BDAT BDAT-LAST | MAIL RCPT DATA(354) final NOOP
+		nTail := 14 // RSET MAIL RCPT BDAT BDAT-LAST | MAIL RCPT DATA(354) final | MAIL RCPT DATA(354) 552 | NOOP
 		if len(o.Replies) < nTail {
 			return h.F("c06-second-transaction", "%s: replies %s", desc, codes)
 		}
 		tail := o.Replies[len(o.Replies)-nTail:]
 		for i, r := range tail {
 			ok := r.Code == 250
-			if i == 7 {
+			if i == 7 || i == 11 {
 				ok = r.Code == 354
+			}
+			if i == 12 {
+				ok = r.Code == 552
 			}
 			if !ok {
 				return h.F("c06-second-transaction", "%s: after the refused message a second transaction with a message of exactly N octets was not accepted: replies %s", desc, codes)
